@@ -4,7 +4,8 @@
    with contract lsa_contract (a maximum-weight perfect matching). *)
 From Coq Require Import List Arith Bool Reals QArith Lia Lra.
 From TLV Require Import Base.Shape Base.PyList Base.Tensor Base.Ops Base.RSum Model.Metrics Proofs.MetricsProofs
-  Proofs.MetricsProofs2 Proofs.MetricsProofs3 Proofs.MetricsProofs4.
+  Proofs.MetricsProofs2 Proofs.MetricsProofs3 Proofs.MetricsProofs4 Proofs.MetricsProofs5 Proofs.MetricsProofs6
+  Proofs.MetricsProofs7.
 Import ListNotations.
 Local Close Scope Q_scope.
 Local Open Scope R_scope.
@@ -122,14 +123,135 @@ Theorem C20_equivalent_covered : forall (r : nat) (m : cmode R) (rec : list nat)
 Proof. exact equivalent_covered. Qed.
 Print Assumptions C20_equivalent_covered.
 
-(* the converse ("0 exactly for equivalent sets") only for a non-positive threshold and the max_score method: with
-   the default tol = 5e-16 > 0 the code maps every index below tol to 0 by design, so the converse is false there *)
-Theorem C20_corrindex_zero_only_if_covered_partial : forall (tol : R) (f1s f2s : list (mat R)) (n1s n2s : list (list R)) (v : R),
-  correlation_index Rops (Some MaxScore) tol f1s f2s n1s n2s = Ok v -> tol <= 0 ->
-  tape_valid (ci_modes MaxScore f1s f2s n1s n2s) -> v = 0 ->
-  forall m, In m (ci_modes MaxScore f1s f2s n1s n2s) -> (0 < ncols (mA m))%nat -> cols_covered m (ncols (mA m)).
-Proof. exact correlation_index_zero_inv. Qed.
+(* the converse ("0 exactly for equivalent sets") needs a non-positive threshold: with the default tol = 5e-16 > 0 the
+   code maps every index below tol to 0 by design, so the converse is false there.  Hence the suffix _partial.
+   stacked / max_score / avg_score: EVERY compared pair is covered; min_score: SOME compared pair is. *)
+Theorem C20_corrindex_zero_only_if_covered_partial : forall (meth : cmethod) (tol : R) (f1s f2s : list (mat R))
+  (n1s n2s : list (list R)) (v : R),
+  meth <> MinScore ->
+  correlation_index Rops (Some meth) tol f1s f2s n1s n2s = Ok v -> tol <= 0 ->
+  tape_valid (ci_modes meth f1s f2s n1s n2s) -> v = 0 ->
+  forall m, In m (ci_modes meth f1s f2s n1s n2s) -> (0 < ncols (mA m))%nat -> cols_covered m (ncols (mA m)).
+Proof. exact correlation_index_zero_inv_all. Qed.
 Print Assumptions C20_corrindex_zero_only_if_covered_partial.
+
+Theorem C20_corrindex_zero_min_score_partial : forall (tol : R) (f1s f2s : list (mat R)) (n1s n2s : list (list R)) (v : R),
+  correlation_index Rops (Some MinScore) tol f1s f2s n1s n2s = Ok v -> tol <= 0 ->
+  tape_valid (ci_modes MinScore f1s f2s n1s n2s) -> v = 0 -> ci_modes MinScore f1s f2s n1s n2s <> [] ->
+  exists m, In m (ci_modes MinScore f1s f2s n1s n2s) /\ ((0 < ncols (mA m))%nat -> cols_covered m (ncols (mA m))).
+Proof. exact correlation_index_zero_inv_min. Qed.
+Print Assumptions C20_corrindex_zero_min_score_partial.
+
+(* ---------- equality case of Cauchy-Schwarz: aligned = collinear ---------- *)
+Theorem C20_cosine_one_iff_collinear : forall (r : nat) (m : cmode R) (i j : nat),
+  mode_ok r m -> (i < r)%nat -> (j < r)%nat ->
+  (Rabs (cosine m i j) = 1 <-> exists d, col_multiple m i j d).
+Proof. exact cosine_one_iff_collinear. Qed.
+Print Assumptions C20_cosine_one_iff_collinear.
+
+Theorem C20_score_one_collinear : forall (r : nat) (ms : list (cmode R)) (p : list nat),
+  (0 < r)%nat -> Forall (mode_ok r) ms -> is_perm r p -> score Rops r (cong_all Rops true r ms) p = 1 ->
+  forall i m, (i < r)%nat -> In m ms -> exists d, col_multiple m i (nth i p 0%nat) d.
+Proof. exact score_one_collinear. Qed.
+Print Assumptions C20_score_one_collinear.
+
+(* component i of every permuted factor is a non-zero multiple of component i of the reference factor *)
+Theorem C20_cp_permute_collinear : forall (ref fs : list (mat R)) (w : list R) (nas nbs : list (list R))
+  (assign : mat R -> list nat) (w' : list R) (fs' : list (mat R)) (p rec : list nat),
+  cp_permute_factors Rops ref fs w nas nbs assign = Ok (w', fs', p) ->
+  tape_valid (zip_modes ref fs nas nbs) -> lsa_contract assign ->
+  let r := ncols (hd [] ref) in let ms := zip_modes ref fs nas nbs in
+  (0 < r)%nat -> equivalent_by true r ms rec ->
+  is_perm r p /\ w' = map (fun k => nth k w 0) p /\ fs' = map (permute_cols Rops p) fs /\
+  (forall i m, (i < r)%nat -> In m ms -> exists d, d <> 0 /\
+     forall k, (k < nrows (mB m))%nat -> mget Rops (permute_cols Rops p (mB m)) k i = d * mget Rops (mA m) k i).
+Proof. exact cp_permute_collinear. Qed.
+Print Assumptions C20_cp_permute_collinear.
+
+(* ---------- cp_permute_factors on a list of tensors: each one is treated exactly as if passed alone ---------- *)
+Theorem C20_cp_permute_list_spec : forall (ref : list (mat R)) (nas : list (list R))
+  (ts : list (list R * list (mat R) * list (list R))) (assign : mat R -> list nat)
+  (outs : list (list R * list (mat R) * list nat)),
+  cp_permute_factors_list Rops ref nas ts assign = Ok outs ->
+  Forall2 (fun t out => cp_permute_factors Rops ref (snd (fst t)) (fst (fst t)) nas (snd t) assign = Ok out) ts outs.
+Proof. exact cp_permute_list_spec. Qed.
+Print Assumptions C20_cp_permute_list_spec.
+
+Theorem C20_cp_permute_list_err : forall (ref : list (mat R)) (nas : list (list R))
+  (ts : list (list R * list (mat R) * list (list R))) (assign : mat R -> list nat),
+  cp_permute_factors_list Rops ref nas ts assign = Err <->
+  exists t, In t ts /\ cp_permute_factors Rops ref (snd (fst t)) (fst (fst t)) nas (snd t) assign = Err.
+Proof. exact cp_permute_list_err. Qed.
+Print Assumptions C20_cp_permute_list_err.
+
+(* ---------- regression metrics = their definitions, every shape, every axis ---------- *)
+(* mean_of n f = (sum_{k<n} f k) / n.  axis=None: k runs over the flat (row-major) data *)
+Theorem C20_MSE_none_def : forall (yt yp : tensor R), shape yp = shape yt ->
+  tget Rops (MSE Rops None yt yp) [] =
+  mean_of (prod (shape yt)) (fun k => (nth k (data yt) 0 - nth k (data yp) 0) ^ 2).
+Proof. exact MSE_none_def. Qed.
+Print Assumptions C20_MSE_none_def.
+
+(* axis=a: the entry at idx (an index of the shape with axis a removed) is the mean over k of the entries at idx
+   with k inserted at position a *)
+Theorem C20_MSE_axis_def : forall (yt yp : tensor R) (a : nat), (a < ndim yt)%nat ->
+  forall idx, inb (remove_nth a (shape yt)) idx ->
+  tget Rops (MSE Rops (Some a) yt yp) idx =
+  mean_of (nth a (shape yt) 0%nat) (fun k => (tget Rops yt (insert_at a k idx) - tget Rops yp (insert_at a k idx)) ^ 2).
+Proof. exact MSE_axis_def. Qed.
+Print Assumptions C20_MSE_axis_def.
+
+Theorem C20_covariance_none_def : forall (yt yp : tensor R), wf yt -> wf yp -> shape yp = shape yt ->
+  tget Rops (covariance Rops None yt yp) [] =
+  mean_of (prod (shape yt)) (fun k =>
+    (nth k (data yt) 0 - mean_of (prod (shape yt)) (fun k0 => nth k0 (data yt) 0)) *
+    (nth k (data yp) 0 - mean_of (prod (shape yt)) (fun k0 => nth k0 (data yp) 0))).
+Proof. exact covariance_none_def. Qed.
+Print Assumptions C20_covariance_none_def.
+
+Theorem C20_covariance_axis_def : forall (yt yp : tensor R), wf yt -> wf yp -> shape yp = shape yt ->
+  forall a, (a < ndim yt)%nat -> forall idx, inb (remove_nth a (shape yt)) idx ->
+  let n := nth a (shape yt) 0%nat in
+  tget Rops (covariance Rops (Some a) yt yp) idx =
+  mean_of n (fun k =>
+    (tget Rops yt (insert_at a k idx) - mean_of n (fun k0 => tget Rops yt (insert_at a k0 idx))) *
+    (tget Rops yp (insert_at a k idx) - mean_of n (fun k0 => tget Rops yp (insert_at a k0 idx)))).
+Proof. exact covariance_axis_def. Qed.
+Print Assumptions C20_covariance_axis_def.
+
+(* variance(y) is covariance(y, y) -- in the code and in the model *)
+Theorem C20_variance_is_covariance : forall (ax : option nat) (y : tensor R), variance Rops ax y = covariance Rops ax y y.
+Proof. exact variance_is_covariance. Qed.
+Print Assumptions C20_variance_is_covariance.
+
+(* cov^2 <= var * var for the definitions (f, g = centred slices), hence |correlation| <= 1 wherever defined *)
+Theorem C20_cov_sq_le_var_var : forall (n : nat) (f g : nat -> R),
+  (mean_of n (fun k => f k * g k)) ^ 2 <= mean_of n (fun k => f k * f k) * mean_of n (fun k => g k * g k).
+Proof. exact cov_sq_le_var_var. Qed.
+Print Assumptions C20_cov_sq_le_var_var.
+
+(* RMSE / standard_deviation / correlation / reflective correlation go through sqrt, which the executed model does not
+   contain: the correspondence checks  v >= 0, v^2 = x  resp.  den > 0, c^2 den = num^2, c num >= 0 ; these relations
+   determine the value *)
+Theorem C20_root_characterised : forall v x : R, 0 <= v -> v ^ 2 = x -> v = sqrt x.
+Proof. exact root_characterised. Qed.
+Print Assumptions C20_root_characterised.
+
+Theorem C20_ratio_characterised : forall c num den : R, 0 < den -> c ^ 2 * den = num ^ 2 -> 0 <= c * num -> c = num / sqrt den.
+Proof. exact ratio_characterised. Qed.
+Print Assumptions C20_ratio_characterised.
+
+Theorem C20_correlation_bound : forall c num den : R, 0 < den -> c ^ 2 * den = num ^ 2 -> num ^ 2 <= den -> Rabs c <= 1.
+Proof. exact correlation_bound. Qed.
+Print Assumptions C20_correlation_bound.
+
+Theorem C20_R2_def_and_bound : forall (xo xp : tensor R), wf xo -> wf xp -> shape xp = shape xo ->
+  R2_score Rops xo xp =
+    1 - rsum (prod (shape xo)) (fun k => (nth k (data xp) 0 - nth k (data xo) 0) ^ 2) /
+        rsum (prod (shape xo)) (fun k => (nth k (data xo) 0) ^ 2) /\
+  (0 < rsum (prod (shape xo)) (fun k => (nth k (data xo) 0) ^ 2) -> R2_score Rops xo xp <= 1).
+Proof. exact R2_def_and_bound. Qed.
+Print Assumptions C20_R2_def_and_bound.
 
 (* ---------- non-vacuity ---------- *)
 (* the oracle contract is satisfiable: the brute force itself meets it *)
@@ -165,4 +287,14 @@ Proof. vm_compute. reflexivity. Qed.
 
 (* unit-norm columns: leverage scores of U = e_1 (2 x 1) *)
 Example C20_ex_leverage_Q : leverage_score_dist Qops [[1#1]; [0#1]] [2#1] 2 1 (1#1000) = Ok [1%Q; 0%Q].
+Proof. vm_compute. reflexivity. Qed.
+
+(* executed instances of the regression model and of the list loop *)
+Example C20_ex_MSE_axis_Q : MSE Qops (Some 0%nat) (mk [2; 2]%nat [1; 2; 3; 4]) (mk [2; 2]%nat [0; 0; 0; 0]) = mk [2]%nat [5; 10].
+Proof. vm_compute. reflexivity. Qed.
+Example C20_ex_cov_axis_Q : covariance Qops (Some 1%nat) (mk [2; 2]%nat [1; 3; 2; 6]) (mk [2; 2]%nat [0; 2; 1; 1]) = mk [2]%nat [1; 0].
+Proof. vm_compute. reflexivity. Qed.
+Example C20_ex_permute_list_Q :
+  cp_permute_factors_list Qops [[[3#1]; [4#1]]] [[5#1]] [([2#1], [[[-6#1]; [-8#1]]], [[10#1]]); ([7#1], [[[4#1]; [3#1]]], [[5#1]])]
+    (fun _ => [0%nat]) = Ok [([2#1], [[[-6#1]; [-8#1]]], [0%nat]); ([7#1], [[[4#1]; [3#1]]], [0%nat])].
 Proof. vm_compute. reflexivity. Qed.
